@@ -29,7 +29,7 @@ for nm in names:
     else:
       for p in [pid] + EXTRA.get(pid, []):
         env = dict(os.environ, VERIF_REPO=wt, VERIF_SEED="0", VERIF_JOBS=os.environ.get("VERIF_JOBS", "8"))
-        r = subprocess.run(["/venv/bin/python", "-m", "mlsim.check", p, "--tier", "quick", "--no-evidence", "--no-selftest", "--no-shrink"],
+        r = subprocess.run(["/venv/bin/python", "-m", "mlsim.check", p, "--tier", "quick", "--no-evidence", "--no-selftest", "--no-shrink", "--first"],
                            cwd=V, env=env, capture_output=True, text=True, timeout=3000)
         sigs = [l.strip().replace("signature: ", "") for l in r.stdout.splitlines() if l.strip().startswith("signature:")]
         res[p] = dict(exit=r.returncode, signatures=sigs[:4])
